@@ -15,6 +15,8 @@ HAND = [
     ("lib", "library rtlLib \"*.v\" -incdir \"aaa\";\ninclude \"bbb\";;"),
     ("pp", "`ifdef A\n x\n`elsif B\n`else\n y `M(1, (2,3)) \n`endif\n`define M(a, b=2) a+b \\\n c\n\"s\" \\e \n"),
     ("pp", ""),
+    ("sv", "timeprecision 1ps; timeunit 1ns;\nmodule m; timeprecision 1ps;\n timeunit 1ns; wire w; endmodule\n"),
+    ("sv", "module m; clocking cb @(posedge clk); input #1 output #2 d; default input #1step output negedge; endclocking endmodule\n"),
     # constructs whose nodes are assembled by hand-written folds (chains, left-recursive expressions)
     ("sv", "module m; initial begin x = obj.a().b().c().d(); y = o.f(1).g(2, 3).h().i(); end endmodule\n"),
     ("sv", "module m; assign z = a + b * c - d / e % f ** g; assign w = p ? q : r ? s : t; assign v = a[1][2].b[3].c; endmodule\n"),
